@@ -18,6 +18,7 @@ import (
 	"bufio"
 	"bytes"
 	"encoding"
+	"encoding/json"
 	"errors"
 	"fmt"
 	"io"
@@ -27,6 +28,7 @@ import (
 	"net/http/httputil"
 	"os"
 	"time"
+	"unicode/utf8"
 )
 
 // Response represents a cached HTTP response entry.
@@ -153,6 +155,71 @@ type ResponseRef struct {
 	Vary         string            `json:"vary"`                 // value of the Vary response header.
 	VaryResolved map[string]string `json:"vary_resolved"`        // resolved varying request headers, keys are canonicalized.
 	ReceivedAt   time.Time         `json:"received_at,omitzero"` // when the response was generated.
+}
+
+// The index is stored as JSON, and a JSON string cannot carry bytes that are not
+// UTF-8 (encoding/json replaces them with U+FFFD). Request header values and URL
+// queries may contain such bytes, so the exact bytes of any affected string travel
+// in the additional "raw" member (base64) and are put back when the index is read:
+// otherwise the stored reference would never match the request it was made from.
+type responseRefJSON struct {
+	ResponseID   string            `json:"id"`
+	Vary         string            `json:"vary"`
+	VaryResolved map[string]string `json:"vary_resolved"`
+	ReceivedAt   time.Time         `json:"received_at,omitzero"`
+	Raw          map[string][]byte `json:"raw,omitempty"`
+}
+
+const (
+	rawRefID       = "id"
+	rawRefVary     = "vary"
+	rawRefResolved = "vary_resolved:"
+)
+
+func (r ResponseRef) MarshalJSON() ([]byte, error) {
+	out := responseRefJSON{
+		ResponseID:   r.ResponseID,
+		Vary:         r.Vary,
+		VaryResolved: r.VaryResolved,
+		ReceivedAt:   r.ReceivedAt,
+	}
+	keep := func(name, s string) {
+		if !utf8.ValidString(s) {
+			if out.Raw == nil {
+				out.Raw = make(map[string][]byte)
+			}
+			out.Raw[name] = []byte(s)
+		}
+	}
+	keep(rawRefID, r.ResponseID)
+	keep(rawRefVary, r.Vary)
+	for field, value := range r.VaryResolved {
+		keep(rawRefResolved+field, value)
+	}
+	return json.Marshal(out)
+}
+
+func (r *ResponseRef) UnmarshalJSON(data []byte) error {
+	var in responseRefJSON
+	if err := json.Unmarshal(data, &in); err != nil {
+		return err
+	}
+	r.ResponseID, r.Vary, r.VaryResolved, r.ReceivedAt = in.ResponseID, in.Vary, in.VaryResolved, in.ReceivedAt
+	for name, b := range in.Raw {
+		switch {
+		case name == rawRefID:
+			r.ResponseID = string(b)
+		case name == rawRefVary:
+			r.Vary = string(b)
+		case len(name) > len(rawRefResolved) && name[:len(rawRefResolved)] == rawRefResolved:
+			if field := name[len(rawRefResolved):]; r.VaryResolved != nil {
+				if _, ok := r.VaryResolved[field]; ok {
+					r.VaryResolved[field] = string(b)
+				}
+			}
+		}
+	}
+	return nil
 }
 
 var _ slog.LogValuer = (*ResponseRef)(nil)
